@@ -44,7 +44,8 @@ class C05(WigBedProp):
             return nb
         # wide nodes as well: a node of more than 32 entries is where a reader would switch from scanning to bisecting
         return [(n, b) for b in range(2, 7) for n in range(1, 41)] + [(n, b) for b in (33, 40, 64) for n in (b - 1, b + 1, 2 * b + 3, 150)] + \
-            [(2100, 2048), (3300, 3000)]          # one leaf node of ≥ 2048 entries: 2048 · 32 bytes no longer fits 16 bits
+            [(2100, 2048), (3300, 3000)] + \
+            [(70000, 2)]          # (one chromosome) one leaf node of ≥ 2048 entries (2048 · 32 bytes no longer fits 16 bits); an index of more than 2^16 nodes
 
     def cases(self, rng, tier):
         out = []
@@ -67,6 +68,8 @@ class C05(WigBedProp):
                 tags.add("nt")
             if n % b:
                 tags.add("partial_last_node")
+            if n > 65536:
+                tags |= {"index_over_2^16_nodes"} | ({"skip_model_extras"} if tier != "thorough" else set())
             qs = []
             for nm in names:
                 vals = data[nm]
@@ -162,7 +165,7 @@ class C05(WigBedProp):
         stage = []
         for cid, c in main_cases.items():
             path = os.path.join(outdir, cid + ".bin")
-            if not os.path.exists(path) or (impl.get(cid) or ["x"])[0] != "R ok":
+            if not os.path.exists(path) or (impl.get(cid) or ["x"])[0] != "R ok" or "skip_model_extras" in c.tags:
                 continue
             if c.kind == "wig" and "transient_read_failures" in c.tags:
                 stage.append(CaseT("wf_" + cid, "wfwig", [], [f"FILE {path}"]))
